@@ -837,6 +837,18 @@ def to_const_poly(e: expr.Expr) -> ConstantPolynomial:
 def normalize_constant(e):
     return from_const_poly(to_const_poly(e))
 
+def fun_singleton(f: expr.Expr, conds: Conditions) -> Polynomial:
+    """Polynomial for a function application f with normalized arguments.
+
+    The arguments can have become constant by normalization (log(x / x) is log(1) for
+    x > 0): then f is normalized as the constant it is, as a second pass would do.
+
+    """
+    if f.is_constant():
+        return constant(to_const_poly(f), conds)
+    else:
+        return singleton(f, conds)
+
 def to_poly(e: expr.Expr, conds: Conditions) -> Polynomial:
     """Convert expression to polynomial."""
     if e.is_var():
@@ -911,9 +923,9 @@ def to_poly(e: expr.Expr, conds: Conditions) -> Polynomial:
         else:
             tmp = normalize(a, conds)
             if e.func_name == "cos" and tmp.is_uminus():
-                return singleton(expr.Fun(e.func_name, tmp.args[0]), conds)
+                return fun_singleton(expr.Fun(e.func_name, tmp.args[0]), conds)
             else:
-                return singleton(expr.Fun(e.func_name, tmp), conds)
+                return fun_singleton(expr.Fun(e.func_name, tmp), conds)
 
     elif e.is_fun() and e.func_name in ("asin", "acos", "atan", "acot", "acsc", "asec"):
         a, = e.args
@@ -923,7 +935,7 @@ def to_poly(e: expr.Expr, conds: Conditions) -> Polynomial:
             # atan(tan(x)) = x on the principal branch only
             return to_poly(a.args[0], conds)
         else:
-            return singleton(expr.Fun(e.func_name, normalize(a, conds)), conds)
+            return fun_singleton(expr.Fun(e.func_name, normalize(a, conds)), conds)
 
     elif e.is_fun() and e.func_name == "log":
         a, = e.args
@@ -934,14 +946,14 @@ def to_poly(e: expr.Expr, conds: Conditions) -> Polynomial:
         elif a.is_divides() and a.args[0] == expr.Const(1):
             return to_poly(expr.Fun("log", a.args[1] ** expr.Const(-1)), conds)
         else:
-            return singleton(expr.log(normalize(a, conds)), conds)
+            return fun_singleton(expr.log(normalize(a, conds)), conds)
 
     elif e.is_fun() and e.func_name == "sqrt":
         return to_poly(expr.Op("^", e.args[0], expr.Const(Fraction(1, 2))), conds)
 
     elif e.is_fun():
         args_norm = [normalize(arg, conds) for arg in e.args]
-        return singleton(expr.Fun(e.func_name, *args_norm), conds)
+        return fun_singleton(expr.Fun(e.func_name, *args_norm), conds)
 
     elif e.is_evalat():
         if e.upper == expr.POS_INF:
